@@ -285,9 +285,36 @@ def plan_C08(ctx):
     schema_plan(ctx, ["C08", "C07"], ["8"])
 
 
+MODEL_RULE = ("A: every history of <= MaxLen calls of AddBasicElement / SetBasicText (incl. same-size replacements with other keys) / "
+              "SetStructureData / ResetDataFor / SetExpressionFor / Erase / Emplace / Calculate / RecalculateAll from a start model "
+              "(X1 = {1,2}, D1 := X1, D2 := D1; 'struct' preset adds S1 : B(X1*X1) with data and projections of it), generated by TLC from "
+              "Model.tla with the predicted content and Fresh (what recalculating everything would show); replayed on a real RSModel. "
+              "non-trivial = history of >= 2 calls. ")
+
+
+def model_stage(ctx, props):
+    b = vcore.build()
+    h = hbin(b, "h_model")
+    for pr in ("", "s"):
+        cfg = "Gen_Model_%s%s.cfg" % ("q" if ctx.quick else "t", pr)
+        ctx.constants[cfg] = open(os.path.join(vcore.TLA, cfg)).read().split("SPECIFICATION")[0].split()
+        ctx.replay("Gen_Model.tla", cfg, h, ["--props", ",".join(props)], tag=cfg[:-4], timeout=3400, xss="64m", xmx="12g")
+
+
+def plan_C11(ctx):
+    ctx.rule = MODEL_RULE
+    ctx.constants = {}
+    ctx.assumptions = ["calculated values and 'was calculated' flags are caches and are not part of the specification state: any constituent that shows a calculated value must show Fresh's value (a mutator may reset more than necessary)",
+                       "the second oracle of the statement (RecalculateAll on a reloaded copy) is used only when all base sets carry keys 1..n (known finding K3 renumbers other keys on reload)"]
+    model_stage(ctx, ["C11"])
+    ctx.exhaustive = True
+
+
 def plan_C10(ctx):
-    ctx.assumptions = ["known finding K2 (cyclic term references) is reported as KNOWN-FINDING"]
+    ctx.assumptions = ["known findings K2 (cyclic term references) and K3 (non-contiguous interpretation keys) are reported as KNOWN-FINDING"]
     schema_plan(ctx, ["C10"], ["9", "7b", "8"])
+    ctx.rule = SCHEMA_RULE + " Models: " + MODEL_RULE
+    model_stage(ctx, ["C10"])
 
 
 def save_trace(ctx, trace, prefix, tag=""):
@@ -309,11 +336,11 @@ PLANS = {
     "C16": plan_C16,
     "C15": plan_C15,
     "C17": plan_C17,
-    "C04": plan_C04, "C18": plan_C18, "C07": plan_C07, "C08": plan_C08, "C09": plan_C09, "C10": plan_C10,
+    "C04": plan_C04, "C18": plan_C18, "C11": plan_C11, "C07": plan_C07, "C08": plan_C08, "C09": plan_C09, "C10": plan_C10,
     "C01": plan_C01, "C02": plan_C02, "C03": plan_C03, "C05": plan_C05, "C06": plan_C06,
 }
 
-HARNESS_OF = {"C14": "h_graph", "C20": "h_strings", "C16": "h_sdcompact", "C15": "h_values", "C17": "h_refs", "C04": "h_input", "C18": "h_reuse", "C07": "h_schema", "C08": "h_schema", "C09": "h_schema", "C10": "h_schema",
+HARNESS_OF = {"C14": "h_graph", "C20": "h_strings", "C16": "h_sdcompact", "C15": "h_values", "C17": "h_refs", "C04": "h_input", "C18": "h_reuse", "C11": "h_model", "C07": "h_schema", "C08": "h_schema", "C09": "h_schema", "C10": "h_schema",
               "C01": "h_lang", "C02": "h_lang", "C03": "h_lang", "C05": "h_lang", "C06": "h_lang"}
 TRACE_SPEC_OF = {"C14": ("Trace_C14.tla", "Trace_C14.cfg"), "C20": ("Trace_C20.tla", "Trace_C20.cfg"),
                  "C16": ("Trace_C16.tla", "Trace_C16.cfg"), "C15": ("Trace_C15.tla", "Trace_C15.cfg"),
